@@ -49,10 +49,56 @@ func mergeLits(in []piece) []piece {
 	return out
 }
 
+// pieceCtx: the path whose events give the contents of strings.Builder / bytes.Buffer values (set by the rule in progress).
+var pieceCtx *Summary
+
+// builderPieces: what was written, in order, to the builder/buffer at addr before sequence number seq.
+func builderPieces(addr *Term, seq int) ([]piece, bool) {
+	if pieceCtx == nil {
+		return nil, false
+	}
+	var out []piece
+	for _, ev := range pieceCtx.Events {
+		if ev.Kind != "call" || ev.Seq >= seq {
+			continue
+		}
+		onIt := ev.Recv == addr
+		m := ev.Callee[strings.LastIndex(ev.Callee, ".")+1:]
+		isB := strings.HasPrefix(ev.Callee, "(*strings.Builder).") || strings.HasPrefix(ev.Callee, "(*bytes.Buffer).")
+		switch {
+		case onIt && isB && (m == "WriteString" || m == "Write") && len(ev.Args) == 1:
+			out = append(out, strPieces(ev.Args[0])...)
+		case onIt && isB && (m == "WriteByte" || m == "WriteRune") && len(ev.Args) == 1:
+			if c, ok := constVal(ev.Args[0]); ok && c.IsInt64() && c.Int64() > 0 && c.Int64() < 128 {
+				out = append(out, piece{k: "lit", lit: string(rune(c.Int64()))})
+			} else {
+				out = append(out, piece{k: "str", t: ev.Args[0]})
+			}
+		case onIt && isB && (m == "Grow" || m == "Len" || m == "Cap" || m == "String" || m == "Bytes"):
+		case onIt && isB:
+			return nil, false
+		case ev.Callee == "fmt.Fprintf" && len(ev.Args) == 3 && ev.Args[0] == addr:
+			out = append(out, fmtPieces(ev.Args[1], ev.Args[2])...)
+		case ev.Callee == "fmt.Fprint" && len(ev.Args) == 2 && ev.Args[0] == addr:
+			return nil, false
+		}
+	}
+	return out, true
+}
+
 // strPieces normalises a string- or []byte-valued term.
 func strPieces(t *Term) []piece {
 	if t == nil {
 		return []piece{{k: "str"}}
+	}
+	if t.Kind == "call" && (t.Name == "(*strings.Builder).String" || t.Name == "(*bytes.Buffer).String" || t.Name == "(*bytes.Buffer).Bytes") && len(t.Args) >= 2 && t.Args[1] != nil && pieceCtx != nil {
+		for _, ev := range pieceCtx.Events {
+			if ev.Kind == "call" && ev.Res == t {
+				if ps, ok := builderPieces(t.Args[1], ev.Seq); ok {
+					return ps
+				}
+			}
+		}
 	}
 	switch {
 	case t.Kind == "const" && strings.HasPrefix(t.Name, "\""):
@@ -412,14 +458,18 @@ func ruleTileAddressing(w *World, r *Run, h int64) {
 	groupsSeen := map[int]bool{}
 	// the longest digit-group chain explored is the one cut by the unrolling bound: its upper limit is not checked
 	maxGroups := 0
-	for _, s := range sums {
+	for i := range sums {
+		s := sums[i]
+		pieceCtx = &sums[i]
 		for _, gd := range calls(s, cGetData) {
 			if u, ok := parseTileURL(mergeLits(strPieces(gd.Args[0])), base); ok && u.groups > maxGroups {
 				maxGroups = u.groups
 			}
 		}
 	}
-	for _, s := range sums {
+	for i := range sums {
+		s := sums[i]
+		pieceCtx = &sums[i]
 		gds := calls(s, cGetData)
 		for _, gd := range gds {
 			nReq++
@@ -494,5 +544,87 @@ func ruleTileAddressing(w *World, r *Run, h int64) {
 	}
 	if !groupsSeen[1] || !groupsSeen[2] {
 		r.Undecided("C18.a", rt+" ∘ client | digit groups", "", fmt.Sprintf("paths with one and with two digit groups expected, saw %v", groupsSeen))
+	}
+}
+
+
+// rulePixelTileURLs (C18.c): every string starting with tile/ that the pixel tile reader hands on is
+// tile/<dec t.H>/<dec t.L>/<pad3 t.N>[.p/<dec t.W>] for one requested tile t, the suffix exactly when t.W < 1<<t.H.
+func rulePixelTileURLs(w *World, r *Run) {
+	prt := "(" + modPath + "/internal/feeder/pixelbt.tileReader).ReadTiles"
+	fn := w.fn(prt)
+	if fn == nil {
+		r.Undecided("C18.c", prt, "", "anchor function not found in the type-checked program")
+		return
+	}
+	e := w.engine(4, 1)
+	sums := e.Explore(fn)
+	r.Analysed(prt, len(sums))
+	tiles := paramN(fn, 0)
+	one := mk("const", "1", 0, types.Typ[types.Int])
+	n := 0
+	for i := range sums {
+		s := sums[i]
+		if s.Trunc != "" {
+			r.Undecided("C18.c", prt, "", "path enumeration truncated: "+s.Trunc)
+			return
+		}
+		pieceCtx = &sums[i]
+		seen := map[*Term]bool{}
+		for _, ev := range s.Events {
+			if ev.Kind != "call" || strings.HasPrefix(ev.Callee, "fmt.") || strings.HasPrefix(ev.Callee, "strconv.") || strings.HasPrefix(ev.Callee, "(*strings.Builder)") || calleePkg(ev.Callee) == "k8s.io/klog/v2" {
+				continue
+			}
+			for _, a := range ev.Args {
+				if a == nil || seen[a] {
+					continue
+				}
+				pcs := mergeLits(strPieces(a))
+				if len(pcs) < 2 || pcs[0].k != "lit" || !(strings.HasPrefix(pcs[0].lit, "tile/") || strings.HasPrefix(pcs[0].lit, "/tile/")) {
+					continue
+				}
+				seen[a] = true
+				n++
+				key := prt + " | tile path = tile/<t.H>/<t.L>/<t.N as %03d>[.p/<t.W>], suffix exactly when t.W < 1<<t.H"
+				// layout
+				okL := len(pcs) >= 6 && pcs[1].k == "dec" && pcs[2].k == "lit" && pcs[2].lit == "/" && pcs[3].k == "dec" && pcs[4].k == "lit" && pcs[4].lit == "/" && pcs[5].k == "pad" && pcs[5].w == 3 &&
+					(len(pcs) == 6 || (len(pcs) == 8 && pcs[6].k == "lit" && pcs[6].lit == ".p/" && pcs[7].k == "dec"))
+				if !okL {
+					r.Fail("C18.c", key, w.pos(ev.Pos), "the tile path "+piecesString(pcs)+" does not follow the layout")
+					continue
+				}
+				var elem *Term
+				anySub(pcs[3].t, func(t *Term) bool {
+					if t.Kind == "indexaddr" && t.Args[0] == tiles {
+						elem = mk("deref", "", 0, nil, t)
+					}
+					return false
+				})
+				if elem == nil {
+					r.Fail("C18.c", key, w.pos(ev.Pos), "the level in the path is not the L of a requested tile: "+piecesString(pcs))
+					continue
+				}
+				el := func(f string) *Term { return normInt(mk("field", f, 0, nil, elem)) }
+				good := pcs[1].t == el("H") && pcs[3].t == el("L") && pcs[5].t == el("N")
+				wT := mk("field", "W", 0, types.Typ[types.Int], elem)
+				full := mk("binop", "<<", 0, types.Typ[types.Int], one, mk("field", "H", 0, types.Typ[types.Int], elem))
+				var facts []Fact
+				for _, f := range s.Facts {
+					if f.Seq < ev.Seq {
+						facts = append(facts, f)
+					}
+				}
+				inv := []ordFact{{"<", wT, one, false}, {"<", full, wT, false}} // tlog asks for 1 <= W <= 1<<H
+				if len(pcs) == 8 {
+					good = good && pcs[7].t == normInt(wT) && impliesWith(facts, inv, "<", wT, full, true)
+				} else {
+					good = good && impliesWith(facts, inv, "==", wT, full, true)
+				}
+				r.Check(good, "C18.c", key, w.pos(ev.Pos), "the tile path "+piecesString(pcs)+" is not built from (t.H, t.L, t.N) of the requested tile, or its partial-width suffix is not tied to t.W < 1<<t.H; path: "+pathString(e, s))
+			}
+		}
+	}
+	if n == 0 {
+		r.Undecided("C18.c", prt, "", "no path hands on a tile path")
 	}
 }
